@@ -12,6 +12,7 @@ from . import core
 REGISTRY = {
     "C13": "statecache",
     "C14": "hashstream",
+    "C17": "lazyindex",
     "C19": "treemerge",
     "C20": "serialize",
     "C01": "objectstore",
